@@ -214,6 +214,8 @@ type SolverStats struct {
 	Time      time.Duration
 	MaxQuery  time.Duration
 	ErrorSeen int
+	ModelTime time.Duration
+	Models    int
 }
 
 type Solver struct {
@@ -452,6 +454,9 @@ func (s *Solver) Check(pc []*Term, extra *Term) SatResult {
 		}
 	}
 	d := time.Since(t0)
+	if s.log != nil {
+		fmt.Fprintf(s.log, "; -> %s in %dms (stack %d)\n", r, d.Milliseconds(), len(s.stack))
+	}
 	s.Stats.Queries++
 	s.Stats.Time += d
 	if d > s.Stats.MaxQuery {
@@ -471,6 +476,8 @@ func (s *Solver) Check(pc []*Term, extra *Term) SatResult {
 // Model fetches values of the given variables after a Sat answer. The stack
 // still holds the query (including `extra`).
 func (s *Solver) Model(vars []*Term) map[string]*big.Int {
+	tm0 := time.Now()
+	defer func() { s.Stats.ModelTime += time.Since(tm0); s.Stats.Models++ }()
 	m := map[string]*big.Int{}
 	if len(vars) == 0 {
 		return m
